@@ -975,11 +975,27 @@ func c18R4(p *engine.Prog, r *engine.Report) {
 			continue
 		}
 		ok := false
-		for _, call := range engine.Calls(f) {
-			if engine.CallIs(call, c.enc...) && engine.Origin(rootOf(engine.CallArgs(call)[0])) == ssa.Value(f.Params[0]) {
-				ok = true
+		var encOn func(g *ssa.Function, depth int) bool
+		encOn = func(g *ssa.Function, depth int) bool {
+			for _, call := range engine.Calls(g) {
+				args := engine.CallArgs(call)
+				if len(args) == 0 || engine.Origin(rootOf(args[0])) != ssa.Value(g.Params[0]) {
+					continue
+				}
+				if engine.CallIs(call, c.enc...) {
+					return true
+				}
+				// a helper method of the same receiver type, handed the receiver itself
+				if h := call.Common().StaticCallee(); h != nil && depth < 2 && h.Blocks != nil && h.Signature.Recv() != nil && len(h.Params) > 0 &&
+					types.Identical(h.Signature.Recv().Type(), g.Signature.Recv().Type()) && engine.Unwrap(args[0]) == ssa.Value(g.Params[0]) {
+					if encOn(h, depth+1) {
+						return true
+					}
+				}
 			}
+			return false
 		}
+		ok = encOn(f, 0)
 		r.Check(ok, "C18-R4", c.fn+"|hash over the object's own full encoding", p.Pos(f.Pos()), "calls "+strings.Join(c.enc, "|")+" on the receiver", "hash is not computed from the receiver's full encoding")
 	}
 	r.Floor("C18-R4", 13, "13 hash functions")
